@@ -831,6 +831,12 @@ pub fn check_c13(ix: &Ix<'_>, v: &mut Vec<Violation>) {
     }
 }
 
+/// A handler of the stub application failed on purpose in this run (the connection ends with the application's
+/// error: nothing the peer or the library did).
+fn app_failed(ix: &Ix<'_>) -> bool {
+    ix.gates.iter().any(|g| matches!(g.kind, GateKind::Publish | GateKind::Proto) && matches!(g.exit, Some((_, Outcome::Err))))
+}
+
 pub fn check_c06(ix: &Ix<'_>, v: &mut Vec<Violation>) {
     let role = ix.role();
     let v5 = ix.ver == Ver::V5;
@@ -1074,6 +1080,7 @@ pub fn check_c06(ix: &Ix<'_>, v: &mut Vec<Violation>) {
         // (judged also - above all - when the connection did end)
         if let Some((sq, _, cls)) = ix.stops.first()
             && !ix.ops.iter().any(|o| o.brief.contains("Close"))
+            && !(matches!(cls, StopClass::AppError) && app_failed(ix))
         {
             viol(v, "C06", format!("C06/correct-peer-connection-ended/{role}"), format!("the peer acknowledged everything correctly and in order, yet the connection ended: {cls:?}"), *sq);
         }
@@ -1211,6 +1218,7 @@ pub fn check_c14(ix: &Ix<'_>, v: &mut Vec<Violation>) {
     let healthy = ix.settled_without_faults() && !local_close && !bad_ops;
     if healthy
         && let Some((sq, _, cls)) = ix.stops.first()
+        && !(matches!(cls, StopClass::AppError) && app_failed(ix))
         && ix.ops.iter().any(|o| (o.brief.starts_with("PubQ2") || o.brief == "Release" || o.brief == "DropReceipt") && o.done.as_ref().is_none_or(|d| d.0 >= *sq))
     {
         viol(v, "C14", format!("C14/exchanges-cancelled-by-connection-end/{role}"), format!("the peer acknowledged everything correctly, yet the connection ended with exactly-once exchanges outstanding: {cls:?}"), *sq);
